@@ -53,3 +53,21 @@ claimed["C08"] = (
     "Outside the claim: instants exactly at the window boundary (durations are multiples of 100ms against a 250ms window), binary packets through the real encoder (frames are opaque), the client/server glue "
     "(callEvent offset capture, newServerSocket resend) unless C08_glue is listed in the evidence, several sessions on one log, time overflow. Native replay approximates cleaner passes with a 2ms period.",
     "5 (C08)")
+
+claimed["C09"] = (
+    "Bounded symbolic verification of the Socket.IO header codec: the real encodeString output is compared byte-for-byte with an independent 15-line rendering of the v5 layout "
+    "<type>[<n>-][<nsp>,][<id>]<json> and then parsed back by the real parseHeader, with one field symbolic at a time: all 7 packet types x namespace ''/'/'/'/'+x (x up to 2/4 symbolic comma-free bytes, "
+    "ALL byte values); ack id symbolic below 10^4 (quick) / 10^6 (thorough) through the real strconv.FormatUint/ParseUint executed from SSA; attachment count symbolic 0..999; event names of up to 2/4 symbolic "
+    "bytes over printable ASCII (quotes and backslashes included) followed or not by a further argument. JSON is a string-literal model that `sv selftest C09` validates natively against encoding/json "
+    "(exhaustively on short strings) on every run.",
+    "Outside the claim (structural): argument trees and everything encoding/json does beyond string literals; the reflect walk that swaps Binary leaves for placeholders ('every attachment in its place', "
+    "'encoding leaves its input intact' - see DESIGN.md F18); ack ids above the bound (the digit loop is the same code; 64-bit div/mod chains exceed the solver budget); non-ASCII / control characters in event names.",
+    "5 (C09)")
+
+claimed["C15"] = (
+    "Bounded symbolic verification of the back-off calculator in SMT floating point: min, max (0 < min <= max <= 2^53 ns), jitter (any float32, incl. NaN/Inf/negative) and the random draw r in [0,1) are symbolic; "
+    "the attempt number is concretised (quick: 0,1,31,62,63,64 - one per regime: exact, int64 wrap of min*2^k, float->int overflow at 2^63; thorough: every 0..70). Asserts 0 < delay <= max, first delay == min "
+    "without jitter, attempt accounting, and (all (min,max), k <= 40, no overflow) delays do not decrease without jitter. FP queries are decided by fresh z3 processes (non-incremental strategies), with cvc5 / z3 5.1 as fall-back.",
+    "Outside the claim: max above 2^53 ns (float64(max) may round up past max), attempt numbers above 70, real timers and outages; the reconnect state machine and offline buffer unless their harnesses are listed in the evidence. "
+    "math.Pow is evaluated natively on concrete operands (base 2, integral exponent); float->int conversion follows amd64.",
+    "5 (C15)")
